@@ -32,7 +32,14 @@ var parsingDurMangler = must(transform.NewSingleTypeSubstitutionMangler[time.Dur
 
 // Decode is a decoder that decodes the Cue config from an io.Reader into the
 // appropriate struct.
-func (d *Decoder) Decode(r io.Reader, t *dials.Type) (reflect.Value, error) {
+func (d *Decoder) Decode(r io.Reader, t *dials.Type) (retVal reflect.Value, retErr error) {
+	// The cue evaluator panics on some inputs (e.g. string repetition with
+	// a huge count); a bad config file must be an error, not a crash.
+	defer func() {
+		if p := recover(); p != nil {
+			retVal, retErr = reflect.Value{}, fmt.Errorf("panic while evaluating cue config: %v", p)
+		}
+	}()
 	raw, readErr := io.ReadAll(r)
 	if readErr != nil {
 		return reflect.Value{}, fmt.Errorf("error reading raw bytes: %w", readErr)
